@@ -234,7 +234,10 @@ pub fn filter_diagnostics(
             if let Some((range, ref mut filters)) = conflicting.as_mut() {
                 if *range == filter.range {
                     for possibly_conflicting in filters.iter() {
-                        if possibly_conflicting.configuration.lint == filter.configuration.lint {
+                        if possibly_conflicting.configuration.lint == filter.configuration.lint
+                            && possibly_conflicting.configuration.global
+                                == filter.configuration.global
+                        {
                             failures.push(Diagnostic::new_complete(
                                 "invalid_lint_filter",
                                 "filter conflicts with a previous one for the same code".to_owned(),
